@@ -248,7 +248,7 @@ func (m *fStompSubscriberTransport) Subscribe(topic string, callback FAsyncCallb
 	m.isSubscribed = true
 	m.callback = callback
 	m.topic = destination
-	go m.processMessages()
+	go m.processMessages(m.stopC, callback)
 	return nil
 }
 
@@ -281,8 +281,9 @@ func (m *fStompSubscriberTransport) Unsubscribe() error {
 
 // processMessages call the given FAsyncCallback with messages from the
 // subscription channel.
-func (m *fStompSubscriberTransport) processMessages() {
-	stopC := m.stopC
+// The stop channel and callback are passed in: Unsubscribe clears m.callback,
+// while messages still buffered in the subscription can be picked by the select.
+func (m *fStompSubscriberTransport) processMessages(stopC chan bool, callback FAsyncCallback) {
 	for {
 		select {
 		case <-stopC:
@@ -301,7 +302,7 @@ func (m *fStompSubscriberTransport) processMessages() {
 			}
 
 			transport := &thrift.TMemoryBuffer{Buffer: bytes.NewBuffer(message.Body[4:])}
-			if err := m.callback(transport); err != nil {
+			if err := callback(transport); err != nil {
 				logger().Warn("frugal: error executing callback: ", err)
 				continue
 			}
